@@ -356,6 +356,8 @@ class BezierPath(BooleanOperationsMixin, SampleMixin, object):
         """Returns the length of the subset of the path from the start
         up to the point t (0->1), where 1 is the end of the whole curve."""
         segs = self.asSegments()
+        if t == 1.0:
+            return self.length
         t *= len(segs)
         length = 0
         for s in segs[: int(math.floor(t))]:
